@@ -66,7 +66,6 @@ class uni_set:
         0: Loop(
             inv=lambda c, L, i: {
                 "visited-children-have-their-share": c.forall("j", lambda j: c.Implies(c.And(0 <= j, j < i), c.seq[j].demand == N(Z.mk_flt(L.value.r / z3.ToReal(c.seq.len))))),
-                "count-is-the-number-of-children": L.child_count.r == z3.ToReal(c.seq.len),
                 "one-write-per-visited-child": c.n_events() == i,
             },
             modifies=lambda c, L: [("all", "demand", lambda x: is_child(c.seq, x)), ("trace",)],
@@ -211,7 +210,6 @@ class w_set:
         0: Loop(
             inv=lambda c, L, i: {
                 "visited-children-have-their-share": shares_upto(c, c.old(L.self), c.old(c.seq), c.seq, i, L.value),
-                "count-is-the-number-of-children": L.child_count.r == z3.ToReal(c.seq.len),
                 "one-write-per-visited-child": c.n_events() == i,
                 "(lemma: D*w/W = (D/W)*w at the child visited last)": c.lemma("rescale", L.value.r, wsel(c.old(L.self), c.old(c.seq)[i - 1]).r, wfold(c, c.old(L.self), c.old(c.seq)).total().r),
             },
